@@ -4,7 +4,7 @@ every index expression, every single mutation, mutation histories, wide samples 
 Bits class and judged step by step by Trace_BitVec."""
 import itertools
 import core
-from bitsrec import NONE, ev_bin, ev_un, Obj, enc, mk
+from bitsrec import NONE, ev_bin, ev_un, ev_concat_list, Obj, enc, mk
 
 def bits_of(x, n): return [(x >> j) & 1 for j in range(n)]
 def allvals(n): return [bits_of(x, n) for x in range(1 << n)]
@@ -34,6 +34,22 @@ def pure_events(W, rnd, big):
             for n in range(m + 4):
                 ev.append(ev_un('zext', a, n=n))
                 if m > 0: ev.append(ev_un('sext', a, n=n))
+    # augmented forms (x op= y) must agree with the binary operators; helper concat() on lists of pieces
+    Wa = min(W, 3)
+    for m in range(Wa + 1):
+        for a in allvals(m):
+            for n in range(Wa + 1):
+                for b in allvals(n):
+                    for op in ('and', 'or', 'xor', 'add', 'sub', 'mul', 'concat'): ev.append(ev_bin(op, Bv(a), Bv(b), ip=True))
+            for x in (0, 1, 5):
+                for op in ('and', 'or', 'xor', 'add', 'sub'): ev.append(ev_bin(op, Bv(a), Iv(x), ip=True))
+            for k in range(m + 2):
+                ev.append(ev_un('shl', a, k=k, ip=True)); ev.append(ev_un('shr', a, k=k, ip=True))
+    for widths in ([1], [2], [0, 2], [2, 1], [1, 2, 1], [2, 0, 1], [1, 1, 1, 2], [3, 2, 2, 1, 1]):
+        for rep in range(3):
+            parts = [bits_of(rnd.getrandbits(w) if w else 0, w) for w in widths]
+            for be in (False, True): ev += ev_concat_list(parts, be)
+    ev += ev_concat_list([bits_of(0xdeadbeef >> (8 * i) & 255, 8) for i in range(4)], True)
     return ev
 
 def slice_exprs(w):
@@ -211,10 +227,10 @@ def run(ctx):
     W = 6 if big else 4
     Wi = 5 if big else 4
     pe = pure_events(W, rnd, big)
-    for e in pe: ctx.mark(('p', e['op'], str(e.get('l', e.get('a'))), str(e.get('r', '')), e.get('k', e.get('n', 0)), e.get('be', 0)))
+    for e in pe: ctx.mark(('p', e['op'], str(e.get('l', e.get('a', e.get('parts')))), str(e.get('r', '')), e.get('k', e.get('n', 0)), e.get('be', 0), e.get('ip', 0)))
     ctx.sample(pe[len(pe) // 2]); ctx.sample(pe[-1])
     validate_events(ctx, pe, 'operators W<=%d' % W)
-    ctx.exhaustive_subspaces.append('all operand pairs of widths 0..%d (Bits/Bits, Bits/int, int/Bits) under & | ^ + - * // hd; all unary ops, shifts 0..w+2, rotations 0..w, splits, extensions' % W)
+    ctx.exhaustive_subspaces.append('all operand pairs of widths 0..%d (Bits/Bits, Bits/int, int/Bits) under & | ^ + - * // hd (augmented forms op= for widths <= 3); concat() of 1..5 pieces, both orders, twice on the same list; all unary ops, shifts 0..w+2, rotations 0..w, splits, extensions' % W)
     ie = index_events(Wi, rnd, big)
     for e in ie: ctx.mark(('i', e['op'], str(e['a']), str([e.get(k) for k in ('i', 'start', 'stop', 'step', 'idx')])))
     validate_events(ctx, ie, 'index reads w<=%d' % Wi)
